@@ -149,13 +149,15 @@ def o_map(a):
         src = xUniformDisk('d', a['ra'], a['dec'], a['rmax'], *spec())
     else:
         src = xUniformAnnulus('a', a['ra'], a['dec'], a['rmin'], a['rmax'], *spec())
-    nside, pix = 40, 2.6 * a['rmax'] / 40.
+    offx, offy = a.get('offset', (0., 0.))            # the source need not sit at the reference point of the grid (nor on its diagonal)
+    nside, pix = 40, (2.6 + 2. * max(abs(offx), abs(offy))) * a['rmax'] / 40.
+    cra, cdec = a['ra'] + offx * a['rmax'] / numpy.cos(numpy.radians(a['dec'])), a['dec'] + offy * a['rmax']
     if a.get('overview'):
         pix *= 0.8          # a grid step no earlier call in this process has used for this centre
         # the same object is first asked for an overview map on a coarser grid with the same centre and number of pixels; the map it
         # reports next, on the finer grid, must be evaluated on *that* grid
-        src.build_intensity_map(build_wcs(a['ra'], a['dec'], nside, pix * a['overview']))
-    w = build_wcs(a['ra'], a['dec'], nside, pix)
+        src.build_intensity_map(build_wcs(cra, cdec, nside, pix * a['overview']))
+    w = build_wcs(cra, cdec, nside, pix)
     imap = src.build_intensity_map(w)
     n = 400000
     u1, u2 = strat(n, g), g.permutation(strat(n, g))
@@ -169,10 +171,11 @@ def o_map(a):
     numpy.add.at(occ, (iy[ok], ix[ok]), 1)
     # interior pixels: all four corners strictly inside the shape (tangent-plane distance from the centre)
     yy, xx = numpy.mgrid[0:nside, 0:nside]
+    sx, sy = [float(v) for v in w.wcs_world2pix(a['ra'], a['dec'], 0)]          # pixel position of the source centre
     inter = numpy.ones((nside, nside), bool)
     for dx in (-0.5, 0.5):
         for dy in (-0.5, 0.5):
-            r = numpy.hypot(xx + dx - (nside - 1) / 2., yy + dy - (nside - 1) / 2.) * pix
+            r = numpy.hypot(xx + dx - sx, yy + dy - sy) * pix
             inter &= (r < 0.97 * a['rmax']) & (r > (1.03 * a.get('rmin', 0.) if a['kind'] != 'disk' else -1.))
     if inter.sum() < 20:
         return False, dict(error='too few interior pixels')
@@ -223,6 +226,11 @@ def o_digitize(a):
         m = numpy.array(src.build_intensity_map(w), dtype=float)
         if inside and not (m.sum() == 1. and (m > 0).sum() == 1):
             bad.append('point source inside the map: %d non-zero pixels, total %r' % (int((m > 0).sum()), float(m.sum())))
+        elif inside:
+            qx, qy = [int(numpy.floor(float(v) + 0.5)) for v in w.wcs_world2pix(a['ra'] + dra / numpy.cos(numpy.radians(a['dec'])), a['dec'] + ddec, 0)]
+            k = numpy.argwhere(m > 0)[0]
+            if (int(k[0]), int(k[1])) != (qy, qx):
+                bad.append('point source at pixel (row %d, col %d) shows up at row %d, col %d' % (qy, qx, k[0], k[1]))
         if not inside and m.sum() != 0.:
             k = numpy.argwhere(m > 0)[0]
             bad.append('point source outside the map (offset %.3f, %.3f deg) shows up at row %d, col %d' % (dra, ddec, k[0], k[1]))
@@ -289,6 +297,8 @@ def explore(chk, budget=1):
             run_oracle(chk, 'gauss', dict(ra=ra, dec=dec, sigma=float(g.uniform(0.003, 0.03)), seed=sd), nontrivial=abs(dec) > 30)
             run_oracle(chk, 'map', dict(kind='disk', ra=ra, dec=dec, rmax=0.05, seed=sd))
             run_oracle(chk, 'map', dict(kind='annulus', ra=ra, dec=dec, rmin=0.02, rmax=0.05, seed=sd))
+            run_oracle(chk, 'map', dict(kind=['annulus', 'disk'][i % 4 // 2], ra=ra, dec=dec, rmin=0.02, rmax=0.05, seed=sd,
+                                        offset=(float(g.choice([-0.6, 0.4, 0.7])), float(g.choice([-0.25, 0.15, 0.])))))
             run_oracle(chk, 'map', dict(kind=['disk', 'annulus'][i % 4 // 2], ra=ra, dec=dec, rmin=0.02, rmax=0.05, seed=sd, overview=float(g.choice([1.6, 2.5]))))
     for (ra, dec) in centres(g, 0)[:3 if quick else 6]:
         run_oracle(chk, 'digitize', dict(ra=ra if ra > 1. else ra + 3., dec=dec, nside=int(g.choice([20, 31, 40])), pix=float(g.uniform(2., 8.)) / 3600., seed=int(g.integers(1, 10 ** 6))))
